@@ -58,7 +58,7 @@ def make_overlay(prop, pkgs, models):
         for srcfile, modfile, cfg in registry.INJECT.get(pkg, []):
             with open(os.path.join(cr, srcfile), "a") as f:
                 name = "verif_kani_" + modfile.replace(".rs", "")
-                f.write(f"\n#[cfg({cfg})]\n#[allow(warnings)]\n#[path = \"verif_kani/{modfile}\"]\nmod {name};\n")
+                f.write(f"\n#[cfg({cfg})]\n#[allow(warnings)]\n#[path = \"verif_kani/{modfile}\"]\npub(crate) mod {name};\n")
     cargo = os.path.join(ov, "Cargo.toml")
     txt = open(cargo).read()
     add = ""
@@ -142,7 +142,7 @@ def parse_log(text):
     r["stubs"] = re.findall(r"- Stub: (.*)", text)
     r["build_error"] = bool(re.search(r"^error(\[E\d+\])?:", text, re.M)) and r["verdict"] is None
     r["oom"] = ("std::bad_alloc" in text or "Out of memory" in text or "memory exhausted" in text
-                or "ran out of memory" in text)
+                or "ran out of memory" in text or "Solver ran out" in text)
     r["unsupported"] = [c for c in r["checks"] if "unsupported" in c["desc"].lower() or
                         "is not currently supported" in c["desc"]]
     return r
